@@ -2,7 +2,7 @@
 builder flow, type dedup, special-mode resolver details, name dispatch, additions)."""
 import os
 
-from vlib.facts import conditional_ancestors, pat_variants, walk, peel, place_path, pat_alternatives, CheckError, REPO, lit_int, diverges
+from vlib.facts import conditional_ancestors, every_iteration, pat_variants, walk, peel, place_path, pat_alternatives, CheckError, REPO, lit_int, diverges
 from vlib.paths import paths, normal_paths
 from vlib.report import RuleResult
 from rules.nopanic import snippet
@@ -457,6 +457,22 @@ def additions(F):
         r.ob(okk, {"fn": nm, "kind": kind})
         if not okk:
             r.violate("%s | export literal" % fn["path"], F.loc(fn), "%s does not build Export{name, kind: %s, index: exp_id, deleted: false, tag}" % (nm, kind))
+        # the new entry is appended on every path (no upsert / early return): an add is an add
+        pushes = [c for c in walk(fn["body"]) if c.get("k") == "MethodCall" and c["method"] == "push" and (place_path(c["recv"]) or "") == "self.exports"]
+        okp = len(pushes) == 1 and every_iteration(fn["body"], pushes[0])[0]
+        r.ob(okp, {"fn": nm, "appends_on_every_path": okp})
+        if not okp:
+            r.violate("%s | conditional append" % fn["path"], F.loc(fn), "%s does not append the new export on every path (%s): the requested export can be dropped or an existing entry mutated instead" % (nm, every_iteration(fn["body"], pushes[0])[1] if pushes else "no push"))
+        others = [x for x in walk(fn["body"]) if x.get("k") in ("Assign", "AssignOp") and (place_path(x["lhs"]) or "").startswith("self.exports")]
+        for c in walk(fn["body"]):
+            if c.get("k") in ("MethodCall", "Call") and (c.get("inst") or c.get("callee") or "") in F.by_path:
+                t = F.by_path[c.get("inst") or c.get("callee")][0]
+                if t.get("body") and any(x.get("k") in ("Assign", "AssignOp") and ".exports" in (place_path(x["lhs"]) or "") or (x.get("k") == "MethodCall" and x["method"] in ("iter_mut", "get_mut", "remove", "retain") and (place_path(x["recv"]) or "").endswith("self.exports")) for x in walk(t["body"])):
+                    others.append(c)
+        oko = not others
+        r.ob(oko)
+        if not oko:
+            r.violate("%s | edits existing exports" % fn["path"], F.loc(fn, others[0]), "%s edits existing export entries: adding an export must change nothing else" % nm)
     return r
 
 
